@@ -200,6 +200,18 @@ package inode
 //@   loop 1 invariant b <= nbytes && len(buffer.Data) == 4096
 //@   loop 1 decreases nbytes - b
 //@   loop 1 invariant [ibits] abits[theIalloc] == old(abits)[theIalloc]
+// Fn2-data (C02, C12): the bytes. Every iteration handles the block that bmap gives for the
+// running offset: it publishes, at the in-block position of that offset, exactly the next bytes
+// of the caller's buffer - by overwriting the whole block with them, or by copying them into the
+// block's buffer, leaving the other bytes of the block as they were, and marking it dirty.
+//@   loop 0 invariant [W-window] base(data) == base(dataBuf) && off(data) == off(dataBuf) + cnt && len(data) == len(dataBuf) - cnt @C02
+//@   loop 0 step [W-position] byteoff == iterstart(off) & 4095 && nbytes <= 4096 - byteoff && nbytes <= iterstart(n) && (nbytes == 4096 - byteoff || nbytes == iterstart(n)) && cnt == iterstart(cnt) + nbytes @C02
+//@   loop 1 invariant [W-copied] forall k uint64 :: k < b ==> buffer.Data[byteoff+k] == data[k] @C02
+//@   loop 1 invariant [W-rest-kept] forall k uint64 :: k < 4096 && !(byteoff <= k && k < byteoff + b) ==> buffer.Data[k] == loopentry(buffer.Data[k]) @C02 @C12
+//@   callsite inode.(*Inode).bmap@1 requires [W-block-of-offset] arg2 == off / 4096 @C02
+//@   callsite alloctxn.(*AllocTxn).ReadBlock@1 requires [W-rmw-block] arg1 == blkno @C02
+//@   callsite buf.(*Buf).SetDirty@1 requires [W-publish] arg0 == buffer && buffer.Addr.Blkno == blkno && (forall k uint64 :: k < nbytes ==> buffer.Data[byteoff+k] == data[k]) && base(data) == base(dataBuf) && off(data) == off(dataBuf) + cnt @C02
+//@   callsite jrnl.(*Op).OverWrite@1 requires [W-whole-block] arg1.Blkno == blkno && arg1.Off == 0 && base(arg3) == base(dataBuf) && off(arg3) == off(dataBuf) + cnt && len(arg3) == 4096 @C02
 
 //@ spec (*Inode).Read(ip, atxn, offset, bytesToRead)
 //@   props C02 C10 C11 C04
@@ -228,6 +240,15 @@ package inode
 //@   loop 1 invariant b <= nbytes && len(data) == n + b && len(buf.Data) == 4096
 //@   loop 1 decreases nbytes - b
 //@   loop 1 invariant [ibits] abits[theIalloc] == old(abits)[theIalloc]
+// Fn1-data (C02, C12): the bytes. Every iteration appends exactly the bytes of the block that
+// bmap gives for the running offset, from the in-block position of that offset, and leaves what
+// was collected before as it was.
+//@   loop 0 step [R-position] byteoff == iterstart(off) & 4095 && nbytes <= 4096 - byteoff && nbytes <= count - iterstart(n) && (nbytes == 4096 - byteoff || nbytes == count - iterstart(n)) @C02
+//@   loop 0 step [R-appended] len(data) == iterstart(n) + nbytes && buf.Addr.Blkno == blkno && (forall j uint64 :: iterstart(n) <= j && j < iterstart(n) + nbytes ==> data[j] == buf.Data[byteoff + (j - iterstart(n))]) && (forall k uint64 :: k < iterstart(n) ==> data[k] == iterstart(data[k])) @C02 @C12
+//@   loop 1 invariant [R-copied] forall j uint64 :: n <= j && j < n + b ==> data[j] == buf.Data[byteoff + (j - n)] @C02
+//@   loop 1 invariant [R-kept] forall k uint64 :: k < n ==> data[k] == loopentry(data[k]) @C02 @C12
+//@   callsite inode.(*Inode).bmap@1 requires [R-block-of-offset] arg2 == off / 4096 @C02
+//@   callsite alloctxn.(*AllocTxn).ReadBlock@1 requires [R-block] arg1 == blkno @C02
 
 // F1-F3 (C05), Z1/Z3/Z6 (C12), R7 (C01): freeing. Shrink lowers the frontier
 // ShrinkSize one block at a time, frees what it passes and persists the
